@@ -393,8 +393,11 @@ class DiscreteStridedIntervalSet(StridedInterval):
         :return:
         """
 
+    @convert_operand_to_si
     def __rsub__(self, o):
-        return self.__sub__(o)
+        # o - self: the operands must not be swapped
+        r = DiscreteStridedIntervalSet(bits=self.bits, si_set={o - si for si in self._si_set})
+        return r.normalize()
 
     @convert_operand_to_si
     @apply_on_each_si
@@ -409,8 +412,11 @@ class DiscreteStridedIntervalSet(StridedInterval):
     def __truediv__(self, o):
         return self.__floordiv__(o)  # floats not welcome
 
+    @convert_operand_to_si
     def __rfloordiv__(self, o):
-        return self.__floordiv__(o)
+        # o / self: the operands must not be swapped
+        r = DiscreteStridedIntervalSet(bits=self.bits, si_set={o // si for si in self._si_set})
+        return r.normalize()
 
     def __rtruediv__(self, o):
         return self.__rfloordiv__(o)
@@ -425,8 +431,11 @@ class DiscreteStridedIntervalSet(StridedInterval):
         :return:
         """
 
+    @convert_operand_to_si
     def __rmod__(self, o):
-        return self.__mod__(o)
+        # o % self: the operands must not be swapped
+        r = DiscreteStridedIntervalSet(bits=self.bits, si_set={o % si for si in self._si_set})
+        return r.normalize()
 
     # Evaluation
 
